@@ -428,6 +428,8 @@ class HostileWorld(World):
                 "net": {"p_frag": rng.choice([0.0, 0.3, 0.8]), "shuffle_select": rng.random() < 0.5,
                         "rst_discards_rx": rng.random() < 0.3, "silent_first_epipe": rng.random() < 0.5},
                 "p_block": rng.choice([0.0, 0.2, 0.5, 1.0])}
+        if rng.random() < 0.08:
+            plan["net"]["unix_addr"] = True     # a listener of the unix-domain kind: accepted connections have the address ''
         # unusual but legal deployments (absent = library defaults, so that older replay files mean what they meant)
         if rng.random() < 0.25:
             plan["hook_raises"] = rng.choice(["all", "hostile"])      # the application's clientDisconnect hook fails
